@@ -189,9 +189,12 @@ def eval_terms(name: str, imports: Sequence[str], terms: Sequence[str], timeout:
     return _coqc(path, timeout)
 
 
-def clean_corr() -> None:
+def clean_corr(pid: str = "") -> None:
+    """Remove generated case files of one property (checks of different properties may run concurrently)."""
     if os.path.isdir(CORR_DIR):
         for fn in os.listdir(CORR_DIR):
+            if pid and f"_{pid}" not in fn:
+                continue
             try:
                 os.unlink(os.path.join(CORR_DIR, fn))
             except OSError:
